@@ -4,7 +4,10 @@ One line = one history `{"op":"history","ops":[…]}` run from `Mgr.init`; the a
 the result `r`, the callbacks fired `ev` and the full observable state `s`.  Object references of
 the harness (`{"kept":id}` = the object the last successful `add` of `id` returned, `{"cur":true}` =
 what `GetCurrent()` returns now) are resolved to heap addresses here; a reference to an object that
-does not exist yet is answered `{"skip":true}` and changes nothing. -/
+does not exist yet is answered `{"skip":true}` and changes nothing.  Value objects are numbered in the order of
+the `reg` operations (every one is accepted); an operation on an object that does not exist yet or that died is
+skipped.  The session starts with the observer's two listeners registered (`Session.__init__` does that), and
+`ev` is what the observer receives (`seen`). -/
 import Barril.Model.Proto
 import Barril.Model.Mgr
 import Barril.Gen.Dbs
@@ -37,6 +40,19 @@ inductive POp
   | newid
   | systems
   | getcur
+  | reg (c u : Sym)
+  | rereg (i : Nat)
+  | kill (i : Nat)
+  | objunit (i : Nat) (u : Sym)
+  | update
+  | reset
+  | obscur
+  | obsunit
+  | setcap (r : Ref) (cap : Sym)
+  | setro (r : Ref) (b : Bool)
+  | eqother (r : Ref)
+  /-- raising one of the module's error classes directly: both are `RuntimeError`s (no manager involved) -/
+  | excls
 
 def symOfJson : Json → Except String Sym
   | .str s => match s.toNat? with
@@ -90,6 +106,18 @@ def parseOp (j : Json) : Except String POp := do
   | "newid" => pure .newid
   | "systems" => pure .systems
   | "getcur" => pure .getcur
+  | "reg" => pure (.reg (← getSym j "cat") (← getSym j "unit"))
+  | "rereg" => pure (.rereg (← getInt j "i").toNat)
+  | "kill" => pure (.kill (← getInt j "i").toNat)
+  | "objunit" => pure (.objunit (← getInt j "i").toNat (← getSym j "unit"))
+  | "update" => pure .update
+  | "reset" => pure .reset
+  | "obscur" => pure .obscur
+  | "obsunit" => pure .obsunit
+  | "setcap" => pure (.setcap (← parseRef j "ref") (← getSym j "cap"))
+  | "setro" => pure (.setro (← parseRef j "ref") (← getBool j "ro"))
+  | "eqother" => pure (.eqother (← parseRef j "ref"))
+  | "excls" => pure .excls
   | _ => throw s!"unknown op kind {k}"
 
 /-- harness-side variables: `kept[id]` -/
@@ -107,6 +135,12 @@ def resolveObj (m : Mgr) (k : Kept) (r : Ref) : Option Nat :=
   match resolve m k r with
   | some (some a) => some a
   | _ => none
+
+/-- the harness still holds value object `i` -/
+def liveObj (m : Mgr) (i : Nat) : Bool :=
+  match m.objs[i]? with
+  | some o => o.alive
+  | none => false
 
 /-- the model operation of a protocol operation (`none` = skipped) -/
 def toOp (m : Mgr) (k : Kept) : POp → Option Op
@@ -130,6 +164,18 @@ def toOp (m : Mgr) (k : Kept) : POp → Option Op
   | .newid => some .getNewId
   | .systems => some .getUnitSystems
   | .getcur => some .getCurrent
+  | .reg c u => some (.register c u)
+  | .rereg i => if liveObj m i then some (.registerAgain i) else none
+  | .kill i => if liveObj m i then some (.kill i) else none
+  | .objunit i u => if liveObj m i then some (.objSetUnit i u) else none
+  | .update => some .updateObjects
+  | .reset => some .resetInstance
+  | .obscur => some .observeCurrent
+  | .obsunit => some .observeUnit
+  | .setcap r cap => (resolveObj m k r).map (fun a => Op.setCaption a cap)
+  | .setro r b => (resolveObj m k r).map (fun a => Op.setReadOnly a b)
+  | .eqother r => (resolveObj m k r).map Op.sysEqOther
+  | .excls => none
 
 def optSymJ : Option Sym → Json
   | none => .null
@@ -165,11 +211,18 @@ def eventJ : Event → Json
 def sysJ (o : USys) : Json :=
   Json.arr #[optSymJ o.id, symJ o.caption, pairsJ o.mapping, .bool o.readOnly, .bool o.listening]
 
+def objJ (o : VObj) : Json := Json.arr #[symJ o.cat, symJ o.unit, .bool o.alive, toJson (if o.alive then o.wraps else 0)]
+
+/-- wraps in `_object_refs` whose referent is gone (0 in every reachable state: `reachable_ObjsWf`) -/
+def deadRefs (m : Mgr) : Nat := (m.objs.map (fun o => if o.alive then 0 else o.wraps)).sum
+
 def snapJ (m : Mgr) : Json :=
   Json.mkObj [("reg", regJ m.reg), ("heap", .arr (m.heap.map sysJ).toArray), ("cur", toJson m.currentAddr),
     ("tmpl", match m.tmpl with
       | none => .null
-      | some t => pairsJ t.mapping)]
+      | some t => pairsJ t.mapping),
+    ("objs", .arr (m.objs.map objJ).toArray), ("deadrefs", toJson (deadRefs m)),
+    ("obs", Json.arr #[.bool m.obsCur, .bool m.obsUnit])]
 
 def stepJ (r : Json) (ev : List Event) (m : Mgr) : Json :=
   Json.mkObj [("r", r), ("ev", .arr (ev.map eventJ).toArray), ("s", snapJ m)]
@@ -179,14 +232,18 @@ def keptSet (k : Kept) (id : Sym) (a : Nat) : Kept := (id, a) :: k.filter (·.1 
 def runOps (db : Db) : Mgr → Kept → List POp → List Json
   | _, _, [] => []
   | m, k, p :: ps =>
-    match toOp m k p with
-    | none => stepJ (Json.mkObj [("skip", .bool true)]) [] m :: runOps db m k ps
-    | some op =>
+    match p, toOp m k p with
+    | .excls, _ => stepJ (errJ .runtime) [] m :: runOps db m k ps
+    | _, none => stepJ (Json.mkObj [("skip", .bool true)]) [] m :: runOps db m k ps
+    | _, some op =>
       let r := step db m op
       let k' := match p, r.out with
         | .add id _ _ _, .ok (.sys a) => keptSet k id a
         | _, _ => k
-      stepJ (outJ p r.out) r.log r.mgr :: runOps db r.mgr k' ps
+      stepJ (outJ p r.out) (seen m r.log) r.mgr :: runOps db r.mgr k' ps
+
+/-- `UnitSystemManager()` followed by the observer registering its two listeners -/
+def sessionInit : Mgr := (step Gen.poscDb (step Gen.poscDb Mgr.init .observeCurrent).mgr .observeUnit).mgr
 
 def handle (j : Json) : Except String Json := do
   let op ← getStr j "op"
@@ -194,7 +251,7 @@ def handle (j : Json) : Except String Json := do
   | "history" =>
     let ops ← getArr j "ops"
     let ops ← ops.toList.mapM parseOp
-    pure (Json.mkObj [("steps", Json.arr (runOps Gen.poscDb Mgr.init [] ops).toArray)])
+    pure (Json.mkObj [("steps", Json.arr (runOps Gen.poscDb sessionInit [] ops).toArray)])
   | _ => throw s!"unknown op {op}"
 
 def step' (j : Json) : Json :=
